@@ -46,6 +46,7 @@ def main(argv):
             raise RuntimeError("probes not installed")
         S = probe.S
         wl = importlib.import_module(f"rtmon.workloads.{prop.lower()}")
+        _common = importlib.import_module("rtmon.workloads.common")
         ctx = Ctx()
         ctx.api, ctx.tmp, ctx.tier, ctx.seed, ctx.prop = api, tmp, tier, seed, prop
         ctx.shard, ctx.nshards = shard, nshards
@@ -70,6 +71,7 @@ def main(argv):
             S.begin_case({"case_index": g})
             try:
                 wl.run_case(ctx, g, rng)
+                _common.reask(random.Random(f"{prop}/{seed}/{g}/reask"))
             except Exception:  # noqa: BLE001  a crash of the driver is a broken check, not a verdict
                 S.monitor_errors.append(f"driver crashed in case {g}: " + traceback.format_exc(limit=8))
                 if len(S.monitor_errors) > 20:
